@@ -42,6 +42,24 @@ def check_diagram(rep, d, others):
         must_be_wf(rep, 'slice', d[k:], '%s[%d:]' % (r, k))
     for k in range(n):
         must_be_wf(rep, 'getitem', d[k], '%s[%d]' % (r, k))
+    # slices with any other step either are refused or are well-typed (skipping boxes cannot compose in general)
+    for step in (2, 3, -2, -3):
+        for a in (None, 0, 1):
+            got = common.outcome(lambda: d[a::step])
+            if got[0] == 'ok':
+                must_be_wf(rep, 'slice.step', got[1], '%s[%r::%d]' % (r, a, step))
+    # reversed slices with bounds: the selected boxes, daggered, in reverse order -- and well-typed
+    for a in [None] + list(range(-n - 1, n + 2)):
+        for b in [None] + list(range(-n - 1, n + 2)):
+            got = common.outcome(lambda: d[a:b:-1])
+            inp = '%s[%r:%r:-1]' % (r, a, b)
+            if got[0] != 'ok':
+                rep.fail('C01:slice.reversed.raises', 'reversed slice raised %r' % (got[1],), inp)
+                continue
+            must_be_wf(rep, 'slice.reversed', got[1], inp)
+            want = [bx[::-1] for bx in d.boxes[a:b:-1]]
+            if got[1].boxes != want:
+                rep.fail('C01:slice.reversed.boxes', 'boxes %r, expected %r' % (got[1].boxes, want), inp)
     for left in (False, True):
         for s in steps(monoidal.Diagram.normalize(d, left=left)):
             must_be_wf(rep, 'normalize.step', s, 'normalize(%s, left=%r)' % (r, left))
@@ -149,6 +167,9 @@ def box_catalogue():
     out = []
     x, y = monoidal.Ty('x'), monoidal.Ty('y')
     out += [monoidal.Box('f', x, y @ x), monoidal.Swap(x, y)]
+    # formal sums are boxes too: the zero of a hom-set with dom != cod and a two-term sum (the dagger of a bubble
+    # raises TypeError: known finding F3 of C02, not a typing matter)
+    out += [monoidal.Sum([], x, y @ x), monoidal.Box('f', x, y @ x) + monoidal.Box('g', x, y @ x)]
     rx, ry = rigid.Ty('x'), rigid.Ty('y')
     out += [rigid.Box('f', rx, ry @ rx.l), rigid.Cup(rx, rx.r), rigid.Cup(rx.l, rx), rigid.Cap(rx, rx.l),
             rigid.Cap(rx.r, rx), rigid.Swap(rx, ry.l)]
@@ -218,7 +239,7 @@ def run(tier, seed=0, shard=(0, 1)):
     doms = [monoidal.Ty(), x, x @ x]
     others = [monoidal.Id(monoidal.Ty()), monoidal.Id(x), boxes[3], boxes[4] >> boxes[5], boxes[1]]
     rep = Report({'max_boxes': max_boxes, 'max_width': 4, 'boxes': [repr(b) for b in boxes],
-                  'doms': [repr(t) for t in doms], 'operations': 'dagger, all slices, getitem, normalize (both '
+                  'doms': [repr(t) for t in doms], 'operations': 'dagger, all slices (forward and reversed with every pair of bounds), getitem, normalize (both '
                   'sides, <= 40 steps), normal_form, foliate, foliation, flatten, tensor/then with 5 fixed '
                   'diagrams, constructor with offsets -3..4, swap/permutation of types of length <= 3 '
                   '(monoidal, rigid), cups/caps/transpose (rigid), one monoidal functor per diagram; the dagger of one instance of every box class with every flag combination (about 75 boxes) and of diagrams around it; the cat.Arrow constructor on 54 requests'})
